@@ -673,4 +673,60 @@ theorem markLine_take (line : Str) (col c : Nat) (hcol : col ≤ line.length) (h
   have : c - col = 0 := by omega
   simp [this, Nat.min_eq_left hc]
 
+/-! ### `util.splitlines`: no line of the result contains a separator -/
+
+theorem splitNlAux_ne_nil (sep : Char → Bool) (crlf cr : Bool) (s : Str) : splitNlAux sep crlf cr s ≠ [] := by
+  induction s generalizing cr with
+  | nil => simp [splitNlAux]
+  | cons c t ih =>
+    unfold splitNlAux
+    split
+    · exact ih _
+    · split
+      · simp
+      · split <;> simp
+
+theorem splitNlAux_no_sep (sep : Char → Bool) (crlf cr : Bool) (s : Str) (x : Char) (hx : sep x = true) :
+    ∀ l ∈ splitNlAux sep crlf cr s, x ∉ l := by
+  induction s generalizing cr with
+  | nil => intro l hl; simp [splitNlAux] at hl; subst hl; simp
+  | cons c t ih =>
+    intro l hl
+    unfold splitNlAux at hl
+    split at hl
+    · exact ih _ l hl
+    · split at hl
+      · simp only [List.mem_cons] at hl
+        rcases hl with rfl | hl
+        · simp
+        · exact ih _ l hl
+      · rename_i hns
+        split at hl
+        · rename_i h r heq
+          simp only [List.mem_cons] at hl
+          rcases hl with rfl | hl
+          · have hh : x ∉ h := ih false h (by rw [heq]; simp)
+            intro hm
+            simp only [List.mem_cons] at hm
+            rcases hm with rfl | hm
+            · exact hns hx
+            · exact hh hm
+          · exact ih false l (by rw [heq]; simp [hl])
+        · rename_i heq
+          exact absurd heq (splitNlAux_ne_nil sep crlf false t)
+
+theorem splitlinesWith_no_sep (sep : Char → Bool) (crlf : Bool) (s : Str) (x : Char) (hx : sep x = true) :
+    ∀ l ∈ splitlinesWith sep crlf s, x ∉ l := by
+  intro l hl
+  unfold splitlinesWith at hl
+  simp only at hl
+  split at hl
+  · exact splitNlAux_no_sep sep crlf false s x hx l (by rw [List.dropLast_eq_take] at hl; exact List.mem_of_mem_take hl)
+  · exact splitNlAux_no_sep sep crlf false s x hx l hl
+
+/-- the lines supp works on contain neither `\n` nor `\r`: the hypothesis `hl` of `C11_found` holds for them -/
+theorem splitlines_no_newline (s : Str) : ∀ l ∈ splitlines s, '\n' ∉ l ∧ '\r' ∉ l := by
+  intro l hl
+  exact ⟨splitlinesWith_no_sep _ _ s '\n' (by decide) l hl, splitlinesWith_no_sep _ _ s '\r' (by decide) l hl⟩
+
 end SuppModel.Text
